@@ -148,6 +148,15 @@ def impl_run(case):
             if isinstance(a, float) or isinstance(b, float):
                 return math.isclose(float(a), float(b), rel_tol=1e-9, abs_tol=max(1e-9, vtol))
             return a == b
+        # variance(mu) / stdev(mu) with the precomputed mean ("to avoid duplicate computation") in every spelling a
+        # client holds it in: the value mean() returned, and - when it is integral - the int and the Fraction
+        mus = [m]
+        if m == m and abs(float(m)) < 2 ** 50 and m == int(m):     # exactly integral (a Fraction near an integer is not)
+            mus += [int(m), Fraction(int(m)), float(int(m))]
+        # (mu = 0 means "not given" to the implementation, which then computes the mean itself: same answer)
+        out["mu_ok"] = all(same(h.variance(mu), v) for mu in mus)
+        if float(v) > 0:
+            out["mu_ok"] = out["mu_ok"] and all(math.isclose(float(h.stdev(mu)) ** 2, float(v), rel_tol=1e-9, abs_tol=max(1e-9, vtol)) for mu in mus)
         out["scale_ok"] = same(hs.mean(), m) and same(hs.variance(), v)
         out["pad_ok"] = same(hp.mean(), m) and same(hp.variance(), v)
         o2 = H(gens.py_hist_dict(case["other"]))
@@ -217,7 +226,7 @@ def agree(case, r, o):
             return False
     elif abs(v - ov) > (abs(ov) + om ** 2 + 1) / 2 ** 36:
         return False
-    return r["sd_ok"] and r["scale_ok"] and r["pad_ok"] and r["add_ok"] and r.get("history_ok", True) and r.get("rational_t_ok", True)
+    return r["sd_ok"] and r["scale_ok"] and r["pad_ok"] and r["add_ok"] and r.get("history_ok", True) and r.get("rational_t_ok", True) and r.get("mu_ok", True)
 
 
 def nontrivial(case, r):
